@@ -162,6 +162,33 @@ pub fn analyse(rep: &RunReport) -> Verdict {
 
     if rep.result.outcome == Outcome::StepCap {
         verdict.inconclusive = true;
+        // A run of a handful of operations that burns tens of thousands of scheduling points is a livelock: if one task
+        // spent most of them inside a single API call, that call never returns (it spins instead of blocking).
+        let cap = rep.result.counters.steps;
+        for t in rep.result.tasks.iter().filter(|t| t.points * 10 >= cap * 6) {
+            let call = world.ops.iter().find(|r| r.thread == Some(t.id) && r.outcome == CallOutcome::InCall);
+            let awaiting = world.hrec.iter().position(|h| h.awaiting == Some(t.id));
+            let dropping = world.objs.iter().position(|o| o.dropper == Some(t.id) && o.drop_inv.is_some() && o.drop_ret.is_none());
+            if let Some(r) = call {
+                let prop = match r.kind {
+                    Kind::Sync => "C04",
+                    Kind::TrySync => "C09",
+                    Kind::PipeIn => "C11",
+                    Kind::Pipe => "C12",
+                    _ => "C03",
+                };
+                v(&mut out, prop, "call_spins_for_ever", &[r.id], r.inv.unwrap_or(0), format!("{} {} never returned: task {} used {} of the run's {} scheduling points inside the call (livelock)", r.tag, r.id, t.id, t.points, cap));
+                verdict.inconclusive = false;
+            } else if let Some(h) = awaiting {
+                let hr = &world.hrec[h];
+                let prop = if hr.kind == Kind::FutureSync { "C08" } else if hr.kind == Kind::Suspend { "C13" } else { "C07" };
+                v(&mut out, prop, "await_spins_for_ever", &hr.op.map(|o| vec![o]).unwrap_or_default(), 0, format!("waiting for handle {} never ended: task {} used {} of the run's {} scheduling points inside it (livelock)", h, t.id, t.points, cap));
+                verdict.inconclusive = false;
+            } else if let Some(o) = dropping {
+                v(&mut out, "C05", "drop_spins_for_ever", &[], 0, format!("dropping object {} never returned: task {} used {} of the run's {} scheduling points inside the drop (livelock)", o, t.id, t.points, cap));
+                verdict.inconclusive = false;
+            }
+        }
     }
 
     let ops = &world.ops;
